@@ -148,7 +148,7 @@ func c01Run(p c01Params, ch vrt.Chooser, trace, baseline bool) (*world.World, *v
 		}
 		add := func() {
 			w.Append(world.Event{Kind: "api:AddPeer", Phase: "call", Peer: remIP, Conn: -1})
-			err := w.Server.AddPeer(peerConfig(remIP, 65001, 65002), pl, opts...)
+			err := w.AddPeer(peerConfig(remIP, 65001, 65002), pl, opts...)
 			w.Append(world.Event{Kind: "api:AddPeer", Phase: "return", Peer: remIP, Conn: -1, Err: fmt.Sprint(err)})
 		}
 		add()
@@ -445,7 +445,9 @@ func c01MultiScn(n, atMs, bound int) *Scn {
 }
 
 func c01Check(c *harness.Ctx) {
-	scns := withLegacy(c01Scenarios(c.Thorough()), legacyEvery(c.Thorough(), 6))
+	base := c01Scenarios(c.Thorough())
+	scns := withLegacy(base, legacyEvery(c.Thorough(), 6))
+	scns = append(scns, withHold0(base, legacyEvery(c.Thorough(), 7)*2)[len(base):]...)
 	c.Res.Extra["scenarios_total"] = float64(len(scns)) / float64(max(c.Of, 1))
 	for i, s := range scns {
 		if !c.Mine(i) {
